@@ -262,8 +262,9 @@ class EvolvableCNN(EvolvableModule):
             )
 
         self.input_shape = input_shape
-        self.channel_size = channel_size
-        self.stride_size = stride_size
+        # NOTE: Own copies, the lists are modified in place by the mutation methods
+        self.channel_size = list(channel_size)
+        self.stride_size = list(stride_size)
         self.block_type = block_type
         self.num_outputs = num_outputs
         self.output_activation = output_activation
